@@ -823,7 +823,7 @@ type rerr struct {
 }
 
 type run struct {
-	Opts     int    `json:"opts"` // bit i = option i (set, while, tlc, gr, lbg, rec)
+	Opts     int    `json:"opts"`             // bit i = option i (set, while, tlc, gr, lbg, rec)
 	Legacy   int    `json:"legacy,omitempty"` // 1 + legacy flag bits (AllowSet, AllowGlobalReassign, AllowRecursion, LoadBindsGlobally): run through starlark.ExecFile
 	Errs     []rerr `json:"errs"`
 	Accepted bool   `json:"accepted"`
